@@ -8,7 +8,7 @@ import numpy as np
 from hypothesis import strategies as st
 
 from vlib import gens
-from vlib.core import Prop, Sub, Violation, calling, check
+from vlib.core import unchanged, Prop, Sub, Violation, calling, check
 from vlib.oracles import hull_dist, lp_dist
 from vlib.systems import Sys, matrix_system
 
@@ -218,7 +218,8 @@ def body_est(case):
     with calling(f"ReceptorEstimator.sample_in_hull(l1={'yes' if l1 else 'no'}, engine={engine})"):
         est = sv.make_estimator()
         with np.errstate(all="ignore"):
-            X = np.asarray(est.sample_in_hull(n=n, seed=seed, engine=engine, l1=l1, relative=rel))
+            with unchanged("est", estimator=est):
+                X = np.asarray(est.sample_in_hull(n=n, seed=seed, engine=engine, l1=l1, relative=rel))
             X2 = np.asarray(est.sample_in_gamut(n=n, seed=seed, engine=engine, l1=l1, relative=rel))
     check(X.shape == (n, sv.m), "est:shape", f"requested {n} samples of {sv.m} receptors, got {X.shape}")
     check(np.array_equal(X, X2), "est:seed-not-reproducible", "same seed gives different samples")
